@@ -187,8 +187,9 @@ def scalar_hook(extra=None, d=None, ell=None):
             o, N = pos[0], int(pos[1][4:])
             return Native("scipy:" + pos[1], lambda it_, p_, k_, nd_: _scipy_uv(N, need(o.attrs.get("A"), "helper.A")))
         if name == "mf._ell" and n == 2:
-            if ell is not None and I.is_const(pos[1]) and I.cval(pos[1]) != 13:
-                return F.const(ell.get(int(I.cval(pos[1])), 0))
+            ks = [int(I.cval(p_)) for p_ in pos if I.is_const(p_) and I.cval(p_).denominator == 1]
+            if ell is not None and len(ks) == 1 and ks[0] != 13:
+                return F.const(ell.get(ks[0], 0))
             return NotImplemented
         if name == "mf._solve_P_Q" and n >= 2:
             U, V = to_rat(pos[0]), to_rat(pos[1])
@@ -305,6 +306,17 @@ def verdict(ctx, ok, title, where, detail=None, values=()):
         ctx.error(title, where, f"the value contains library calls the rule does not model: {um}"[:400])
         return False
     ctx.fail(title, where, detail)
+    return False
+
+
+def _aborted(ctx, title, where, ret):
+    """the evaluated path ends in an exception (every test on it was decided): report it; True if so"""
+    if I.is_crash(ret):
+        ctx.fail(title, where, {"evaluation raises": ret.why})
+        return True
+    if isinstance(ret, Raised):
+        ctx.fail(title, where, {"evaluation ends in the `raise` at line": getattr(ret.node, "lineno", None)})
+        return True
     return False
 
 
@@ -840,6 +852,8 @@ def r4_siblings(ctx):
             for label, Bv, half, shape in regimes:
                 it = Interp(ctx, EXPM, hook=_ordered_hook(_square_shapes(extra) if Bv is None else extra), erase=False)
                 ret = it.call(q, [A, h, F.const(order), Bv, half])
+                if _aborted(ctx, f"{q}(order={order}; {label}) returns E, P, Q", fn, ret):
+                    continue
                 if not isinstance(ret, tuple) or len(ret) != 3:
                     ctx.error(f"{q}(order={order}; {label}): return", fn, repr(ret)[:300])
                     continue
@@ -874,7 +888,9 @@ def r4_siblings(ctx):
     it = Interp(ctx, EXPM, hook=scalar_hook(), oracle=Converge(K))
     ret = it.call("expmint_pow", [a, h])
     sub = {"x": a * h}
-    if not isinstance(ret, tuple) or len(ret) != 3:
+    if _aborted(ctx, "expmint_pow returns E, I, I2", fn, ret):
+        pass
+    elif not isinstance(ret, tuple) or len(ret) != 3:
         ctx.error("expmint_pow: return", fn, repr(ret)[:300])
     else:
         for nm, got, w in (("E", ret[0], _exp_trunc(K).subs(sub)), ("I", ret[1], h * _phi1_trunc(K).subs(sub)),
@@ -889,6 +905,8 @@ def r4_siblings(ctx):
         it = Interp(ctx, EXPM, hook=scalar_hook(), oracle=Converge(K, {"np.allclose": direct, "isspmatrix": False}))
         H = it.instantiate("_ExpmIntPadeHelper", [x], {"structure": None})
         ret = it.call("_geti2", [H, Esym, Isym, h, F.const(13)])
+        if _aborted(ctx, "_geti2 (order 13, " + ("direct arm" if direct else "power series") + ") returns I2", fn, ret):
+            continue
         if not isinstance(ret, F.Rat):
             ctx.error("_geti2 " + ("direct arm" if direct else "power series"), fn, repr(ret)[:300])
             continue
@@ -1126,6 +1144,8 @@ def r6_augmented(ctx):
             call = _last(it.calls, "_expm_SS")
             tag = f"getEPQ2(order={order}; {rlabel})"
             ca = call.ordered() if call is not None else []
+            if _aborted(ctx, f"{tag} returns E, P, Q", fn, ret):
+                continue
             if not isinstance(ret, tuple) or len(ret) != 3 or len(ca) < 3:
                 ctx.error(f"{tag}: could not evaluate", fn, repr(ret)[:300])
                 continue
